@@ -2,7 +2,7 @@
 # usage: tools/run_seeded.sh [seeded-id ...]   -- for every seeded change: apply it to a scratch worktree of /repo HEAD, run the
 # checks listed in its meta.json (detected_by) against that worktree (ICVERIF_REPO), report DETECTED / MISSED. /repo is never touched.
 cd /verif
-ids="$@"; [ -z "$ids" ] && ids=$(ls seeded)
+ids="$@"; [ -z "$ids" ] && ids=$(cd seeded && ls -d */ | tr -d /)
 wt=/tmp/wt/seeded_regress
 git -C /repo worktree remove --force $wt 2>/dev/null
 git -C /repo worktree add -q --detach $wt HEAD || exit 2
